@@ -154,3 +154,33 @@ def float_dist(rng, fmt, n):
 
 
 FAMS_1D = ["A", "M", "D", "N"]
+
+
+# ---------------------------------------------------------------- binomial
+def rand_bop(rng, den, kind=None, a_den=None):
+    """(b, d, u, a) on the grid"""
+    b, u = rand_simplex(rng, 2, den, kind)
+    ad = a_den or den
+    return [b[0], b[1], u, Fr(rng.randint(0, ad), ad)]
+
+
+def grid_bops(den, a_den=None):
+    ad = a_den or den
+    out = []
+    for c in all_compositions(den, 3):
+        for k in range(ad + 1):
+            out.append([Fr(c[0], den), Fr(c[1], den), Fr(c[2], den), Fr(k, ad)])
+    return out
+
+
+def float_bop(rng, fmt):
+    b, u = float_simplex(rng, fmt, 2)
+    a = rng.random()
+    if fmt == "f32":
+        a = struct.unpack(">f", struct.pack(">f", a))[0]
+    return [b[0], b[1], u, a]
+
+
+def rand_tri(rng, den, kind=None):
+    b, u = rand_simplex(rng, 2, den, kind)
+    return [b[0], b[1], u]
